@@ -298,6 +298,19 @@ def run_property(prop, tier, jobs, keep):
         r = results[h.fq]
         if r.status == "inconclusive":
             inconclusive.append({"harness": h.fq, "reason": r.reason})
+    # vacuity rule: every cover label of the property must be SATISFIED in at least one harness that ran to a verdict
+    # (a label may be out of reach of a small instance, but never of all of them)
+    sat, seen = set(), set()
+    for h in hs:
+        r = results[h.fq]
+        if r.status in ("pass", "fail") and not h.expect_fail:
+            for k, v in r.covers.items():
+                seen.add(k)
+                if v == "SATISFIED":
+                    sat.add(k)
+    if not any(results[h.fq].status == "inconclusive" for h in hs):
+        for k in sorted(seen - sat):
+            inconclusive.append({"harness": "(property-wide)", "reason": "vacuity: cover witness never satisfiable in any harness: " + k})
     for er in extra_results:
         for v in er.get("violations", []):
             k = None
